@@ -31,10 +31,15 @@ Hier4(dummy) ==   \* diamonds: class 4 derives from 2 and 3 (in either order), w
                              d \in { x \in ClassesAt(4) : x.bases \in { <<2, 3>>, <<3, 2>> } /\ x.pub } } : Interesting(h) }
 (* decoy: the module also contains, *before* the hierarchy, an unrelated class with a nested class that has the same simple name as the
    private class 1 (with methods of its own).  It is no ancestor of anything, so it changes no expected fact. *)
+(* aliased: the package __init__ re-exports the private class 1 under a public alias ('from .inha import _C1 as C1Shown'); the class keeps
+   its private Python name, so its members still surface in its public subclasses - once. *)
 Universe(tier) ==
-  { [h |-> h, split |-> s, decoy |-> FALSE] : h \in Hier3, s \in BOOLEAN }
-  \cup { [h |-> h, split |-> FALSE, decoy |-> TRUE] : h \in { x \in Hier3 : ~x[1].pub /\ x[1].ms # {} } }
-  \cup { [h |-> h, split |-> FALSE, decoy |-> FALSE] : h \in (IF tier = "quick" THEN { x \in Hier4(0) : x[1].ms = {"m1"} /\ x[4].ms = {} } ELSE Hier4(0)) }
+  { [h |-> h, split |-> s, decoy |-> FALSE, aliased |-> FALSE] : h \in Hier3, s \in BOOLEAN }
+  \cup { [h |-> h, split |-> FALSE, decoy |-> TRUE, aliased |-> FALSE] : h \in { x \in Hier3 : ~x[1].pub /\ x[1].ms # {} } }
+  \cup { [h |-> h, split |-> s, decoy |-> FALSE, aliased |-> TRUE]
+         : h \in { x \in Hier3 : ~x[1].pub /\ x[1].ms # {} /\ (tier # "quick" \/ (x[3].pub /\ x[3].ms \cap x[1].ms # {} /\ 1 \in AncIdx(x, 3, 3))) },
+           s \in (IF tier = "quick" THEN {FALSE} ELSE BOOLEAN) }
+  \cup { [h |-> h, split |-> FALSE, decoy |-> FALSE, aliased |-> FALSE] : h \in (IF tier = "quick" THEN { x \in Hier4(0) : x[1].ms = {"m1"} /\ x[4].ms = {} } ELSE Hier4(0)) }
 
 (* ---------- Appendix B.6 ---------- *)
 BasesOf(h, k) == { h[k].bases[j] : j \in 1..Len(h[k].bases) }
@@ -104,6 +109,7 @@ Emit == (pc = "done" /\ cur = CHOOSE k \in PublicClasses(sc) : TRUE) => PrintT(T
 ToSet(seq) == { seq[j] : j \in 1..Len(seq) }
 IsSubseq(s, t) ==   \* s (without duplicates) occurs in t in the same order
   \A a, b \in 1..Len(s) : a < b => \E x, y \in 1..Len(t) : x < y /\ t[x] = s[a] /\ t[y] = s[b]
+ShapeS(s, k) == IF s.aliased THEN ":private-ancestor-re-exported-under-public-alias" ELSE ""
 Shape(h, k) == (IF Len(h[k].bases) = 2 THEN "two-bases" ELSE "one-base")
                \o (IF \E a \in PrivAnc(h, k) : Cardinality({ b \in PrivAnc(h, k) \cup {k} : a \in BasesOf(h, b) }) > 1 THEN ":shared-private-ancestor" ELSE "")
                \o (IF \E a \in PrivAnc(h, k) : PrivAnc(h, a) # {} THEN ":private-chain" ELSE "")
@@ -116,14 +122,14 @@ Judge(s, obs) ==
       names == { M[j].name : j \in 1..Len(M) }
       count(m) == Cardinality({ j \in 1..Len(M) : M[j].name = m })
   IN
-     { [property |-> "C17", clause |-> "Once", sig |-> "missing-method:" \o Shape(h, k), expected |-> m, observed |-> ToString(names)] : m \in Required(h, k) \ names }
-  \cup { [property |-> "C17", clause |-> "Once", sig |-> "duplicated-method:" \o Shape(h, k), expected |-> "once", observed |-> ToString(count(m)) \o "x " \o m] : m \in { m \in names : count(m) > 1 } }
-  \cup { [property |-> "C17", clause |-> "Once", sig |-> "foreign-method:" \o Shape(h, k), expected |-> ToString(Allowed(h, k)), observed |-> m] : m \in (names \cap Meths) \ Allowed(h, k) }
-  \cup { [property |-> "C17", clause |-> "Precedence", sig |-> "wrong-definition:" \o Shape(h, k), expected |-> ToString(Winners(h, k, M[j].name)), observed |-> ToString(M[j].origin)]
+     { [property |-> "C17", clause |-> "Once", sig |-> "missing-method:" \o Shape(h, k) \o ShapeS(s, k), expected |-> m, observed |-> ToString(names)] : m \in Required(h, k) \ names }
+  \cup { [property |-> "C17", clause |-> "Once", sig |-> "duplicated-method:" \o Shape(h, k) \o ShapeS(s, k), expected |-> "once", observed |-> ToString(count(m)) \o "x " \o m] : m \in { m \in names : count(m) > 1 } }
+  \cup { [property |-> "C17", clause |-> "Once", sig |-> "foreign-method:" \o Shape(h, k) \o ShapeS(s, k), expected |-> ToString(Allowed(h, k)), observed |-> m] : m \in (names \cap Meths) \ Allowed(h, k) }
+  \cup { [property |-> "C17", clause |-> "Precedence", sig |-> "wrong-definition:" \o Shape(h, k) \o ShapeS(s, k), expected |-> ToString(Winners(h, k, M[j].name)), observed |-> ToString(M[j].origin)]
          : j \in { j \in 1..Len(M) : M[j].name \in Required(h, k) /\ count(M[j].name) = 1 /\ M[j].origin \notin Winners(h, k, M[j].name) } }
   \cup { [property |-> "C17", clause |-> "SubClause", sig |-> "private-superclass-named", expected |-> "public only", observed |-> ToString(obs.supers)]
          : x \in { x \in ToSet(obs.supers) : x # 0 /\ ~h[x].pub } }
   \cup (IF IsSubseq(DirectPublicBases(h, k), obs.supers) /\ ToSet(DirectPublicBases(h, k)) \subseteq ToSet(obs.supers) THEN {}
-        ELSE { [property |-> "C17", clause |-> "SubClause", sig |-> "public-bases-order:" \o Shape(h, k), expected |-> ToString(DirectPublicBases(h, k)), observed |-> ToString(obs.supers)] })
+        ELSE { [property |-> "C17", clause |-> "SubClause", sig |-> "public-bases-order:" \o Shape(h, k) \o ShapeS(s, k), expected |-> ToString(DirectPublicBases(h, k)), observed |-> ToString(obs.supers)] })
   \cup { [property |-> "C17", clause |-> "Imported", sig |-> "superclass-not-imported", expected |-> "import", observed |-> ToString(x)] : x \in ToSet(obs.unimported) }
 =============================================================================
